@@ -117,9 +117,6 @@ func c03Lens(name string, d consts.ActiveSafetyType) []int {
 		return []int{0, 1, 5, 20, 52, 53, 54, 55, 60, 68, 69, 70, 74, 75, 76, 77, 78, 80}
 	}
 	max, capped := 40, false
-	if vrt_Tier() > 0 {
-		max = 50
-	}
 	if c, ok := c03Caps[name]; ok {
 		max, capped = c[vrt_Tier()], true
 	}
@@ -130,7 +127,7 @@ func c03Lens(name string, d consts.ActiveSafetyType) []int {
 		return l
 	}
 	if vrt_Tier() > 0 {
-		l = append(l, 62, 63, 64, 105, 255, 256, 257, 291, 1023)
+		l = append(l, 62, 63, 64, 105, 291, 1023)
 	} else {
 		l = append(l, 62, 63, 64, 105, 291)
 	}
@@ -151,12 +148,7 @@ func VerifC03NoPanic() {
 	// two on a few lengths (thorough); all other bytes range over every remaining value.
 	k := 0
 	few := n == 1 || n == 7 || n == 30 || n == 36 || n == 63 || n == 105
-	if vrt_Tier() > 0 && n <= 64 {
-		k = 1
-		if few && n <= 40 {
-			k = 2
-		}
-	} else if few {
+	if few {
 		k = 1
 	}
 	vrtKSpecial("special", k, c03Special, body)
